@@ -22,7 +22,7 @@ def vis_durations():
         pass
     return dict(VIS)
 
-MUT_PROPS = {"NEW": ["C01", "C02"], "ADD_OP": ["C01", "C02"], "ADD_OP_IN": ["C01", "C02"], "ADD_SUB": ["C05", "C02"], "COPY": ["C05"],
+MUT_PROPS = {"NEW": ["C01", "C02"], "ADD_OP": ["C01", "C02"], "ADD_OP_IN": ["C01", "C02"], "ADD_SUB": ["C05", "C02"], "ADD_LIVE": ["C02", "C01"], "COPY": ["C05"],
              "APPLY": ["C06"], "FLATTEN": ["C11"], "NEW_LIB": [], "SET_DUR": ["C03"], "SET_REP": ["C06"],
              "OVR_ENTER": ["C03", "C18"], "OVR_LEAVE": ["C03", "C18"], "SET_INIT": ["C18"]}
 OBS_PROPS = {"LIST": ["C02"], "LIST_TWICE": ["C02"], "TIMES": ["C01"], "DURATION": ["C04"], "COMPOSITES": ["C02"],
@@ -63,6 +63,7 @@ class Feed:
         self.apply_info = {}        # alias -> {'top_reps': n, 'effective': bool}
         self.last_apply = {}        # id(structure) -> (step, handle it was applied to, info) of the latest effective unroll
         self.last_flatten = {}      # id(structure) -> (step, handle)
+        self.key_collisions = set() # ("sub", parent handle, step) / ("copy", handle): copies taken while D17 applies
 
     def _mark_rel_unknown(self, node):
         node.rel_known = False
@@ -149,6 +150,9 @@ class Feed:
             name, child = st["c"], st["child"]
             sp = ex.sub_placements.get(i)
             c, v = M.add_sub(name, child, key=id(sp["obj"]) if sp else None)
+            if v.get("collision"):
+                self.key_collisions.add(("sub", name, i))
+                self.probe("copy-key-collision")
             if sp is not None:
                 ref = sp["ref_obj"]
                 impl = {"rt": sp["rt"], "ref_key": None if ref is None else id(ref)}
@@ -171,6 +175,34 @@ class Feed:
             self.probe("add-sub")
             if M.roots[child].members and any(m.is_comp for m in M.roots[child].members):
                 self.probe("nest-depth>=2")
+        elif op == "ADD_LIVE":
+            name, child = st["c"], st["child"]
+            sp = ex.sub_placements.get(i)
+            c, v = M.add_live(name, child, key=id(sp["obj"]) if sp else None)
+            if sp is not None:
+                ref = sp["ref_obj"]
+                impl = {"rt": sp["rt"], "ref_key": None if ref is None else id(ref)}
+                if ref is not None:
+                    impl["ref_label"] = ["COMP", []] if observe.kind_of(ref) == "COMP" else observe.static_label(ref)
+                    impl["ref_sig"] = _ref_signature(ref)
+                v2 = M.place_sub(name, c, impl, v)
+                M.settle_live(c)
+                if not v2.get("ok", True):
+                    self.findings.append(oracles.F(["C01"], "placement-subcircuit", step=i, live=True, **{k: x for k, x in v2.items() if k != "ok"}))
+                if not sp.get("ret_is_op", True):
+                    self.findings.append(oracles.F(["C02"], "add-did-not-return-the-operation", step=i))
+            self.flags[name] |= {"live"} | self.flags.get(child, set())
+            if id(M.roots[child]) in self.explicit_roots:
+                self.explicit_roots.add(id(M.roots[name]))
+            if child in M.ambiguous:
+                M.ambiguous.add(name)
+            self.user_ops.add(id(M.roots[name]))
+            self.touch(name, i)
+            self.touch(child, i)
+            # the nested circuit's own handles are not looked at any more (its times are those inside the parent)
+            for hname in [h for h, r in M.roots.items() if r is c]:
+                del M.roots[hname]
+            self.probe("add-live")
         elif op == "NEW_LIB":
             a = ex.adopted[st["c"]]
             M.adopt(st["c"], a["LIST"]["ops"], a["COMPOSITES"]["comps"], a["keys_ops"], a["keys_comps"])
@@ -180,6 +212,9 @@ class Feed:
             self.touch(st["c"], i)
             self.probe("lib-circuit")
         elif op == "COPY":
+            if M.key_collision(M.roots[st["c"]], False):
+                self.key_collisions.add(("copy", st["as"]))
+                self.probe("copy-key-collision")
             M.copy(st["c"], st["as"])
             self.flags[st["as"]] = set(self.flags.get(st["c"], set())) | {"copy"}
             self.leaf_entries[st["as"]] = []
@@ -470,7 +505,8 @@ def transition_oracles(desc, i, st, full, feed, stats):
         src = born[2]
         if src in M.roots and feed.last_struct_mut.get(id(M.roots[src]), -1) < born[1]:
             exs, fsrc, _ = q_star(steps, i, {"op": "OBS", "what": "FULL", "c": src})
-            out.extend(compare_copy(full, fsrc, None, "copy()"))
+            out.extend(compare_copy(full, fsrc, None, "copy()", acq=M.measurements_in_scope(name) and M.measurements_in_scope(src),
+                                    d17=("copy", name) in feed.key_collisions))
             tp("copy-vs-source")
     # ---- nested copy (add as sub-circuit) vs the child it was copied from
     ls = feed.last_sub.get(name)
@@ -485,7 +521,8 @@ def transition_oracles(desc, i, st, full, feed, stats):
                     j = jj
             if j is not None:
                 exs, fchild, _ = q_star(steps, i, {"op": "OBS", "what": "FULL", "c": child})
-                out.extend(compare_copy(full, fchild, j, "add(sub-circuit)"))
+                out.extend(compare_copy(full, fchild, j, "add(sub-circuit)", acq=M.measurements_in_scope(name) and M.measurements_in_scope(child),
+                                        d17=("sub", name, s_step) in feed.key_collisions))
                 tp("nested-vs-child")
     # ---- before / after unrolling (whichever handle of the unrolled structure is looked at)
     la = feed.last_apply.get(id(root))
@@ -512,7 +549,28 @@ def transition_oracles(desc, i, st, full, feed, stats):
     return out
 
 
-def compare_copy(full_parent, full_src, comp_index, how):
+def _acq_of(full, leaves):
+    """Acquisition answers (qubit, tag, per-qubit index, circuit-level index) of the measurements among the listed
+    leaves (None = all), and whether the circuit has measurements elsewhere."""
+    acq = full.get("ACQ")
+    if not isinstance(acq, dict) or "m" not in acq:
+        return None, None
+    inside = sorted([m[1], m[2], m[3], m[4]] for m in acq["m"] if leaves is None or m[0] in leaves)
+    others = any(leaves is not None and m[0] not in leaves for m in acq["m"])
+    return inside, others
+
+
+def compare_copy(full_parent, full_src, comp_index, how, acq=False, d17=False):
+    out = _compare_copy(full_parent, full_src, comp_index, how, acq or d17)
+    if d17:
+        # known finding D17: the copy was taken while two of the circuits taking part in it were the same lookup key
+        for f in out:
+            f["props"] = ["C05"]
+            f["detail"]["diag"] = "D17"
+    return out
+
+
+def _compare_copy(full_parent, full_src, comp_index, how, acq=False):
     """Copy faithfulness, implementation against implementation: the canonical forest (kinds, channels, tags,
     annotation fields, relation types, re-pointed internal relations) and the schedule relative to the own
     start of the copy equal those of its source."""
@@ -535,6 +593,13 @@ def compare_copy(full_parent, full_src, comp_index, how):
             out.append(oracles.F(["C05", "C01"], "copy-schedule-differs-from-source", how=how, copy=oracles._short(a), source=oracles._short(b)))
         elif comp_index is not None and sdur is not None and ct[comp_index][2] != sdur:
             out.append(oracles.F(["C05", "C04"], "nested-copy-duration-differs-from-source", how=how, got=ct[comp_index][2], want=sdur))
+    if acq and not out:
+        # the measurements of the copy resolve in the circuit they were copied into exactly as those of the source
+        # resolve in the source (compared where the copy holds all measurements of its circuit: no index offsets)
+        got, others = _acq_of(full_parent, None if comp_index is None else set(comps[comp_index]["leaves"]))
+        want, _ = _acq_of(full_src, None)
+        if got is not None and want is not None and not others and got != want:
+            out.append(oracles.F(["C05", "C07"], "copy-acquisition-indices-differ-from-source", how=how, got=got[:12], want=want[:12]))
     return out
 
 
